@@ -186,6 +186,31 @@ def _base(v, facts, depth):
         if l2 is not None and l2 >= 0:
             return 0, h2
         return None, None
+    if o == "shl":
+        l2, h2 = interval(a[0], facts, depth + 1)
+        if isinstance(a[1], int) and a[1] >= 0 and l2 is not None and l2 >= 0:
+            return l2 << a[1], (None if h2 is None else h2 << a[1])
+        return None, None
+    if o in ("bor", "bxor"):
+        bs = [interval(x, facts, depth + 1) for x in a]
+        if all(l is not None and l >= 0 for l, h in bs):
+            # non-negative operands: the result fits in as many bits as the widest operand
+            if all(h is not None for l, h in bs):
+                top = max(h for l, h in bs)
+                return (max(l for l, h in bs) if o == "bor" else 0), (1 << top.bit_length()) - 1
+            return 0, None
+        return None, None
+    if o == "m:index" and len(a) >= 2:
+        seq = a[0]
+        n_ = len(seq) - 1 if isinstance(seq, tuple) and seq and seq[0] in ("#list", "#tuple") else (len(seq) if isinstance(seq, (list, tuple, str, bytes)) else None)
+        if n_:
+            return 0, n_ - 1  # list.index either raises or returns a position
+        return 0, None
+    if o == "lookup" and isinstance(a[0], tuple) and a[0] and a[0][0] == "#dict":
+        vals = [kv[1] for kv in a[0][1:]]
+        if vals and all(isinstance(x, int) and not isinstance(x, bool) for x in vals):
+            return min(vals), max(vals)  # a raising lookup in a table of integers
+        return None, None
     if o == "ite":
         c = a[0]
         l1, h1 = interval(tm_unfz(a[1]), list(facts) + [c], depth + 1)
